@@ -161,6 +161,7 @@ def step (st : St) (line : String) : St × Option String :=
   let toks := (line.trimAscii.toString.splitOn " ").filter (· ≠ "")
   match toks with
   | [] => (st, none)
+  | "echo" :: rest => (st, some ("echo " ++ " ".intercalate rest))
   | "cfg" :: d :: w :: _ => ({ st with depth := d.toNat!, width := w.toNat!, keys := {} }, none)
   | "key" :: kid :: hex :: cols =>
     let ki : KeyInfo := { bytes := (parseHexBytes hex).getD [], cols := (nats cols).toArray }
